@@ -89,6 +89,9 @@ type Node struct {
 	MasterOf   *Node // nil for masters
 	store      *Store
 	Silent     bool // reads commands but never answers
+	// ExtraFlags is appended to the node's flags in every CLUSTER NODES answer (e.g. "nofailover", the flag of a node
+	// running with cluster-replica-no-failover yes; it says nothing about the node's slots).
+	ExtraFlags string
 	// Hides: nodes this node does not know (yet): they are missing from its CLUSTER NODES answer (a partial view).
 	Hides []*Node
 	// ResetNextConn: the next accepted connection is reset at once (the node is restarting), then the flag clears.
@@ -496,6 +499,9 @@ func (c *Cluster) NodesText(self *Node) string {
 			flags = "myself," + flags
 		} else if n.Suspected {
 			flags += ",fail?" // the answering node's own, unconfirmed suspicion; the node is alive
+		}
+		if n.ExtraFlags != "" {
+			flags += "," + n.ExtraFlags
 		}
 		port := n.Addr[strings.LastIndex(n.Addr, ":")+1:]
 		fmt.Fprintf(&b, "%s %s@1%s %s %s 0 1426238316232 %d connected", n.ID, n.Addr, port, flags, master, n.Idx+1)
